@@ -379,7 +379,14 @@ def check(case, ctx: Ctx):
                      f"{state_str(m)}; raised {type(exc).__name__}: {str(exc)[:200]}")
         if verdict == "refuse":
             n_ref += 1
-            if ok:
+            if ok and m.measured and has_var(op) and not m.param:
+                # listed finding: the measurement is forgotten; the model then
+                # follows the tree so that one root cause is reported once
+                ctx.fail(C, "accepted_after_measure:call_with_variable",
+                         f"{case['dev']}: {op} accepted although the sequence is measured",
+                         cont=True)
+                m.measured = False
+            elif ok:
                 ctx.fail(C, f"accepted:{op['op']}" + (":ro:" + op["what"] if op["op"] == "ro" else ""),
                          f"{case['dev']}: model says {op} must be refused in state {state_str(m)}")
         if verdict == "unspec":
